@@ -51,6 +51,9 @@ def cases(tier):
                         for thr in (0, 1e-12, 1e-3, 0.05, 0.5):
                             for mr in (INF, 1, 2, 3):
                                 yield {'ep': 'tsvd', 'm': m_, 'n': n_, 'spec': spec, 'scale': scale, 'c': c, 'rel': rel, 'thr': thr, 'mr': mr}
+                                if mr == 2 and scale == 1.0:
+                                    for mrt in ('np64', 'np32'):
+                                        yield {'ep': 'tsvd', 'm': m_, 'n': n_, 'spec': spec, 'scale': scale, 'c': c, 'rel': rel, 'thr': thr, 'mr': mr, 'mrt': mrt}
     for sites in layouts(tier):
         d = len(sites)
         for fam in ('decay', 'gauss', 'dominant', 'lowrank', 'ties'):
@@ -141,7 +144,8 @@ def run_tsvd(case, seed):
     key = 'truncated_svd:' + ('rel' if rel else 'abs')
     A0 = A.copy()
     with r.op(key + ':call'):
-        u, sv, v = utl.truncated_svd(np.array(A), threshold=thr, max_rank=mr, rel_truncation=rel)
+        npt = {'np64': np.int64, 'np32': np.int32}.get(case.get('mrt'))
+        u, sv, v = utl.truncated_svd(np.array(A), threshold=thr, max_rank=mr if npt is None else npt(mr), rel_truncation=rel)
         if r.true(key + ':rank', len(sv) == keep and u.shape == (m, keep) and v.shape == (keep, n),
                   'kept %d expected %d (scale %g, threshold %g %s, max_rank %s)' % (len(sv), keep, case['scale'], thr, 'rel' if rel else 'abs', mr)):
             r.close(key + ':singular-values', np.asarray(sv) / s[0], s[:keep] / s[0], 1e-10)
